@@ -114,18 +114,23 @@ class PathProxy(object):
 class Interposer(object):
     """Stands in for the `os` module inside boltons.fileutils."""
 
-    def __init__(self, crash_before=None, faults=None, after_hook=None):
+    def __init__(self, crash_before=None, faults=None, after_hook=None, hooks=None):
         self.log = []
         self.crash_before = crash_before
         self.faults = dict(faults or {})
         self.injected = []
         self.path = PathProxy(self)
         self.after_hook = after_hook
+        self.hooks = dict(hooks or {})      # event number -> callable run at the boundary BEFORE that event
+        self.hook_results = {}
 
     def event(self, name, *args):
         k = len(self.log)
         if self.crash_before is not None and k == self.crash_before:
             os._exit(77)
+        h = self.hooks.pop(k, None)
+        if h is not None:
+            self.hook_results[k] = h()
         self.log.append([name] + [a if isinstance(a, (int, str)) else repr(a) for a in args])
         e = self.faults.get(k)
         per = self.faults.get('persist')
@@ -257,7 +262,21 @@ def do_save(fu, scn, dest):
     """The client code: one atomic save as a user would write it."""
     chunks = new_content(scn)
     BodyError = BODY_EXC[scn.get('raise_kind', 'body-error')]   # noqa: F811
-    with fu.atomic_save(dest, **saver_kwargs(scn)) as fo:
+    saver = fu.atomic_save(dest, **saver_kwargs(scn))
+    if scn.get('reuse') == 'after-failure':
+        # one saver object used again after a failed attempt (a retry loop around `with saver:`)
+        try:
+            with saver as fo:
+                if chunks:
+                    fo.write(chunks[0])
+                raise BODY_EXC['body-error']('first attempt fails')
+        except BODY_EXC['body-error']:
+            pass
+    elif scn.get('reuse') == 'after-success':
+        with saver as fo:
+            for ch in chunks:
+                fo.write(ch)
+    with saver as fo:
         for i, ch in enumerate(chunks):
             if scn.get('raise_at') == i:
                 raise BodyError('body failed before write %d' % i)
@@ -289,11 +308,26 @@ def snapshot(d, dest, part):
             'listing': sorted(os.listdir(d))}
 
 
-def run_in_process(fu, scn, d, faults=None):
-    """Error-injection run (no crash).  Returns dict(raised, exc, log, injected, before, after)."""
+def make_intruder(dest):
+    """Another process creates the destination (exclusively) - returns True when it got there first."""
+    def create():
+        try:
+            fd = os.open(dest, os.O_WRONLY | os.O_CREAT | os.O_EXCL, 0o644)
+        except FileExistsError:
+            return False
+        os.write(fd, INTRUDER)
+        os.close(fd)
+        return True
+    return create
+
+
+def run_in_process(fu, scn, d, faults=None, intruder_at=None):
+    """Error-injection run (no crash).  Returns dict(raised, exc, log, injected, before, after).
+    intruder_at=k: another process creates the destination at the boundary before event k (or, when the save
+    makes fewer events, right after its last one)."""
     dest, part = prepare_dir(scn, d)
     before = snapshot(d, dest, part)
-    ip = Interposer(faults=faults)
+    ip = Interposer(faults=faults, hooks=({intruder_at: make_intruder(dest)} if intruder_at is not None else None))
     old_umask = os.umask(scn.get('umask', 0o022))
     saved = install(fu, ip)
     exc = None
@@ -307,7 +341,7 @@ def run_in_process(fu, scn, d, faults=None):
         os.umask(old_umask)
     after = snapshot(d, dest, part)
     return {'exc': exc, 'log': ip.log, 'injected': ip.injected, 'before': before, 'after': after,
-            'dest': dest, 'part': part}
+            'dest': dest, 'part': part, 'intruder_created': any(ip.hook_results.values())}
 
 
 def run_crash_child(fu, scn, d, crash_before, faults=None):
